@@ -694,6 +694,13 @@ Hint Resolve pst_request_status_core : presst.
 Lemma pst_setup_retry : forall t idxs, preserves Rst (setup_retry ev t idxs).
 Proof. intros; unfold setup_retry, get_task_context; walk. Qed.
 Hint Resolve pst_setup_retry : presst.
+Lemma pst_render_vars : forall specs rolling rendered errs, preserves Rst (render_vars ev specs rolling rendered errs).
+Proof. induction specs as [|[n d] specs IH]; intros; simpl; walk. Qed.
+Hint Resolve pst_render_vars : presst.
+Lemma pst_finalize_context : forall ts e ctx, preserves Rst (finalize_context ev ts e ctx).
+Proof. intros; unfold finalize_context; walk. Qed.
+Lemma pst_log_errors : forall es t r tr, preserves Rst (log_errors es t r tr).
+Proof. intros; unfold log_errors; walk. Qed.
 Lemma pst_get_rec : forall i, preserves Rst (get_rec i).
 Proof. intros; unfold get_rec; walk. Qed.
 Lemma pst_upd_rec : forall i f, preserves Rst (upd_rec i f).
@@ -768,3 +775,147 @@ Proof.
 Qed.
 
 End NewRecord.
+
+(* ------------------------------------------------------------------ one transition *)
+
+(* growth: what a transition may do to the state *)
+Definition present (c : cstate) (t : string) (r : nat) : Prop := get_staged_task (c_ws c) t r <> None.
+
+Definition Rgrow (c c' : cstate) : Prop :=
+  c_graph c' = c_graph c /\ c_spec c' = c_spec c /\ (c_init c = true -> c_init c' = true) /\
+  tasks (c_ws c') = tasks (c_ws c) /\
+  length (routes (c_ws c)) <= length (routes (c_ws c')) /\ length (contexts (c_ws c)) <= length (contexts (c_ws c')) /\
+  length (sequence (c_ws c')) = length (sequence (c_ws c)) /\
+  (forall i r, nth_error (sequence (c_ws c)) i = Some r ->
+     exists r', nth_error (sequence (c_ws c')) i = Some r' /\ (r_status r <> None -> r_status r' <> None)) /\
+  (forall t r, present c t r -> present c' t r).
+
+Lemma Rgrow_refl : forall c, Rgrow c c.
+Proof. intro c. repeat split; auto. intros i r H; exists r; auto. Qed.
+Lemma Rgrow_trans : forall a b c, Rgrow a b -> Rgrow b c -> Rgrow a c.
+Proof.
+  intros a b c [G1 [S1 [I1 [T1 [O1 [C1 [L1 [Q1 P1]]]]]]]] [G2 [S2 [I2 [T2 [O2 [C2 [L2 [Q2 P2]]]]]]]].
+  split; [congruence|]. split; [congruence|]. split; [auto|]. split; [congruence|]. split; [lia|]. split; [lia|].
+  split; [congruence|]. split; [|auto].
+  intros i r H. destruct (Q1 _ _ H) as [r1 [H1 A1]]. destruct (Q2 _ _ H1) as [r2 [H2 A2]]. exists r2; split; auto.
+Qed.
+
+Lemma Rw_Rst_Rgrow : forall c c', Rw c c' -> Rst c c' -> Rgrow c c'.
+Proof.
+  intros c c' [I [T [C [O [S [L Q]]]]]] [St [G Sp]]. unfold Rgrow, present, get_staged_task. rewrite St, C, O. repeat split; auto.
+  intros i r H. assert (Hl : i < length (sequence (c_ws c'))) by (rewrite L; apply nth_error_Some; congruence).
+  destruct (nth_error (sequence (c_ws c')) i) as [r'|] eqn:E; [|apply nth_error_None in E; lia].
+  exists r'; split; [reflexivity|]. destruct (Q _ _ E) as [r0 [H0 [_ [_ [_ A]]]]]. rewrite H in H0; inversion H0; subst; exact A.
+Qed.
+
+Lemma find_app_present : forall A (P : A -> bool) l x, find P l <> None -> find P (app l x) <> None.
+Proof. intros A P l x; induction l as [|a l IH]; simpl; [congruence|]. destruct (P a); [congruence|exact IH]. Qed.
+Lemma find_app_new : forall A (P : A -> bool) l s, P s = true -> find P (app l [s]) <> None.
+Proof. intros A P l s H; induction l as [|a l IH]; simpl; [rewrite H; discriminate|]. destruct (P a); [discriminate|exact IH]. Qed.
+Lemma stg_matches_refl : forall s, stg_matches (s_id s) (s_route s) s = true.
+Proof. intro s; unfold stg_matches. rewrite String.eqb_refl, Nat.eqb_refl; reflexivity. Qed.
+Lemma find_staged_update_present : forall f t r t' r' l,
+  (forall s, s_id (f s) = s_id s /\ s_route (f s) = s_route s) ->
+  find (stg_matches t' r') l <> None -> find (stg_matches t' r') (staged_update f t r l) <> None.
+Proof.
+  intros f t r t' r' l Hf; induction l as [|s l IH]; simpl; [congruence|].
+  assert (E : stg_matches t' r' (f s) = stg_matches t' r' s) by (unfold stg_matches; destruct (Hf s) as [-> ->]; reflexivity).
+  destruct (stg_matches t r s); simpl.
+  - rewrite E. destruct (stg_matches t' r' s); [discriminate|auto].
+  - destruct (stg_matches t' r' s); [discriminate|exact IH].
+Qed.
+
+Lemma nat_remove_first_in : forall n l, In n l -> exists l', nat_remove_first n l = Some l' /\ forall i, In i l' -> In i l.
+Proof.
+  intros n l; induction l as [|m l IH]; simpl; [tauto|]. intros H.
+  destruct (Nat.eqb n m) eqn:E; [exists l; split; [reflexivity|auto]|].
+  destruct H as [H|H]; [subst; rewrite Nat.eqb_refl in E; discriminate|].
+  destruct (IH H) as [l' [E' Hl']]. rewrite E'. exists (m :: l'); split; [reflexivity|].
+  intros i [Hi|Hi]; [left; exact Hi|right; apply Hl'; exact Hi].
+Qed.
+
+Lemma In_next_transitions : forall g t e, In e (g_next_transitions g t) -> In e (g_edges g) /\ e_src e = t.
+Proof.
+  intros g t e H. unfold g_next_transitions in H. apply In_sort_by in H. apply filter_In in H.
+  destruct H as [H1 H2]. apply String.eqb_eq in H2. split; assumption.
+Qed.
+
+(* what the definition and the composed graph must agree on (decidable, see static_ok_b) *)
+Definition cmd_startable (n : string) : Prop :=
+  exists name st s, engine_event n = Some (EvEngine name st) /\ tbl_step task_table S_UNSET name = Some s.
+
+Record static_ok (sp : wf_spec) (g : graph) : Prop := {
+  so_spec : forall t, g_has_task g t = true -> spec_get_task sp t <> None;
+  so_ref : forall e ts, In e (g_edges g) -> spec_get_task sp (e_src e) = Some ts -> e_ref e < length (ts_next ts);
+  so_inert : graph_commands_inert g;
+  so_start : forall e, In e (g_edges g) -> is_engine_command (e_dst e) = true -> cmd_startable (e_dst e);
+  so_le1 : forall t, length (filter (fun e => is_engine_command (e_dst e)) (g_next_transitions g t)) <= 1 }.
+
+Section Transition.
+Variable ev : string -> dict -> evalres.
+Hypothesis Hev : eval_no_internal ev.
+
+Ltac binv H c1 a E :=
+  apply bind_inv in H; destruct H as [[c1 [a [E H]]]|[?e [E ->]]].
+
+Lemma WF_grow_lengths : forall c w', WF c ->
+  tasks w' = tasks (c_ws c) -> sequence w' = sequence (c_ws c) -> staged w' = staged (c_ws c) ->
+  length (routes (c_ws c)) <= length (routes w') -> length (contexts (c_ws c)) <= length (contexts w') ->
+  WF (set_ws c w').
+Proof.
+  intros c w' [Wi Wp Ws Wr] T Q S O C. constructor; simpl.
+  - exact Wi.
+  - intros k i H. rewrite T in H. rewrite Q. destruct (Wp _ _ H); split; [assumption|lia].
+  - intros s H. rewrite S in H. destruct (Ws _ H) as [A B]. split; [lia|]. destruct B as [B1 B2]. split; [exact B1|].
+    intros i Hi; specialize (B2 _ Hi); lia.
+  - intros r H. rewrite Q in H. destruct (Wr _ H) as [[B1 B2] B]. split; [|exact B]. split; [exact B1|].
+    intros i Hi; specialize (B2 _ Hi); lia.
+Qed.
+
+Lemma WF_staged : forall c l', WF c ->
+  (forall s, In s l' -> s_route s < length (routes (c_ws c)) /\ ctx_ok (c_ws c) (s_in s)) ->
+  WF (set_ws c (ws_set_staged (c_ws c) l')).
+Proof. intros c l' [Wi Wp Ws Wr] H. constructor; simpl; auto. Qed.
+
+Definition pt_post (e : gedge) (c' : cstate) (res : option (string * nat) * option (string * nat)) : Prop :=
+  forall n rt, fst res = Some (n, rt) -> n = e_dst e /\ is_engine_command n = true /\ present c' n rt.
+
+Lemma process_transition_wf : forall t route idx ts ctx e c c' res,
+  process_transition ev t route idx ts ctx e c = (c', res) ->
+  WF c -> static_ok (c_spec c) (c_graph c) -> In e (g_next_transitions (c_graph c) t) ->
+  spec_get_task (c_spec c) t = Some ts -> route < length (routes (c_ws c)) ->
+  idx < length (sequence (c_ws c)) ->
+  WF c' /\ Rgrow c c' /\ (forall x, res = Exc x -> ~ internal_cls x) /\ (forall v, res = Val v -> pt_post e c' v).
+Proof.
+  intros t route idx ts ctx e c c' res H Wc Hso Hin Hts Hroute Hidx. unfold process_transition in H.
+  destruct (In_next_transitions _ _ _ Hin) as [Hedge Hsrc].
+  assert (Quiet : forall c0 c1 (m : M unit), preserves Rw m -> preserves Rst m -> ni m -> WF c0 -> Rgrow c c0 ->
+            forall r0, m c0 = (c1, r0) -> WF c1 /\ Rgrow c c1 /\ (forall x, r0 = Exc x -> ~ internal_cls x)).
+  { intros c0 c1 m P1 P2 P3 W0 G0 r0 E. split; [eapply WF_Rw; [eapply P1; exact E|exact W0]|].
+    split; [eapply Rgrow_trans; [exact G0|apply Rw_Rst_Rgrow; [eapply P1; exact E|eapply P2; exact E]]|].
+    intros x ->. eapply P3; exact E. }
+  set (tid := (e_dst e, e_key e)) in *.
+  binv H c1 ok E1.
+  2: { match type of E1 with ?m _ = _ =>
+         assert (P1 : preserves Rw m) by (pw Rw_refl Rw_trans ltac:(first [apply pw_upd_next|apply pw_log_error|apply pw_request_status_core]));
+         assert (P2 : preserves Rst m) by (pw Rst_refl Rst_trans ltac:(first [apply pst_upd_rec|apply pst_log_error|apply pst_request_status_core]));
+         assert (P3 : ni m) by (apply ni_try_catch; intro; niw ltac:(first [apply ni_log_error|apply ni_request_status_core])) end.
+       split; [eapply WF_Rw; [eapply P1; exact E1|exact Wc]|].
+       split; [apply Rw_Rst_Rgrow; [eapply P1; exact E1|eapply P2; exact E1]|]. split; [|discriminate].
+       intros x Hx; inversion Hx; subst. eapply P3; exact E1. }
+  match type of E1 with ?m _ = _ =>
+    assert (P1 : preserves Rw m) by (pw Rw_refl Rw_trans ltac:(first [apply pw_upd_next|apply pw_log_error|apply pw_request_status_core]));
+    assert (P2 : preserves Rst m) by (pw Rst_refl Rst_trans ltac:(first [apply pst_upd_rec|apply pst_log_error|apply pst_request_status_core])) end.
+  pose proof (WF_Rw _ _ (P1 _ _ _ E1) Wc) as W1.
+  pose proof (Rw_Rst_Rgrow _ _ (P1 _ _ _ E1) (P2 _ _ _ E1)) as G1. clear P1 P2.
+  assert (Done : forall cz, WF cz -> Rgrow c cz ->
+            WF cz /\ Rgrow c cz /\ (forall x, Val (@None (string * nat), @None (string * nat)) = Exc x -> ~ internal_cls x) /\
+            (forall v, Val (@None (string * nat), @None (string * nat)) = Val v -> pt_post e cz v)).
+  { intros cz Wz Gz. split; [exact Wz|]. split; [exact Gz|]. split; [discriminate|].
+    intros v Hv; inversion Hv; subst. intros n rt Hn; discriminate. }
+  destruct ok as [[|]|]; [|inversion H; subst; apply Done; assumption|inversion H; subst; apply Done; assumption].
+  (* the criteria hold *)
+  admit.
+Admitted.
+
+End Transition.
